@@ -121,6 +121,7 @@ type Engine struct {
 	mapReverse   bool
 	schedFork    bool
 	kafkaSt      *kafkaState
+	tokSt        *tokStream
 	preemptLeft  int      // remaining preemptions on this path (verifPreemptions)
 	schedTrace   []string // preemptions taken on this path
 	enginePanic  string
@@ -187,6 +188,7 @@ func (e *Engine) resetPath() {
 	e.schedFork = false
 	e.preemptLeft = 0
 	e.kafkaSt = nil
+	e.tokSt = nil
 	e.schedTrace = nil
 	e.traceCalls = false
 	e.clockSymbolic = false
